@@ -79,6 +79,18 @@ pub struct ErrInfo {
     pub message: String,
     pub span: Option<(usize, usize, usize, usize)>,
     pub source: Option<Rc<str>>,
+    /// `Display` of the error (ariadne report), rendered only when `set_render_errors(true)`:
+    /// Ok(text) or Err(panic message)
+    pub rendered: Option<Result<String, String>>,
+}
+
+thread_local! {
+    static RENDER_ERRORS: std::cell::Cell<bool> = const { std::cell::Cell::new(false) };
+}
+
+/// C01: also run `Display for RuntimeError` on every error that is produced.
+pub fn set_render_errors(on: bool) {
+    RENDER_ERRORS.with(|r| r.set(on));
 }
 
 impl Out {
@@ -108,10 +120,12 @@ impl Out {
 }
 
 fn err_info(e: &RuntimeError) -> ErrInfo {
+    let rendered = if RENDER_ERRORS.with(|r| r.get()) { Some(guard(|| format!("{}", e))) } else { None };
     ErrInfo {
         message: e.message.clone(),
         span: e.span.map(|s| (s.start_byte, s.end_byte, s.start_line, s.start_col)),
         source: e.source.clone(),
+        rendered,
     }
 }
 
@@ -221,13 +235,13 @@ impl Sess {
                 if v.len() == 1 {
                     v.pop().unwrap().out
                 } else if v.is_empty() {
-                    Out::Err(ErrInfo { message: "<no statement>".into(), span: None, source: None })
+                    Out::Err(ErrInfo { message: "<no statement>".into(), span: None, source: None, rendered: None })
                 } else {
                     // several statements: result of the last
                     v.pop().unwrap().out
                 }
             }
-            Err(e) => Out::Err(ErrInfo { message: format!("PARSE: {}", e), span: None, source: None }),
+            Err(e) => Out::Err(ErrInfo { message: format!("PARSE: {}", e), span: None, source: None, rendered: None }),
         }
     }
 
